@@ -56,13 +56,17 @@ func newEnv(name string, tx bool, tweak func(cfg *fosite.Config)) *env {
 	return newEnvX(name, tx, tweak, nil)
 }
 
-func newEnvX(name string, tx bool, tweak func(cfg *fosite.Config), extra []compose.Factory) *env {
+func newEnvX(name string, tx bool, tweak func(cfg *fosite.Config), extra []compose.Factory, strategy ...func(*compose.CommonStrategy, *fosite.Config)) *env {
 	fs := NewFaultStore()
 	var backing interface{} = fs
 	if tx {
 		backing = &TxFaultStore{FaultStore: fs}
 	}
-	w := world.New(world.Options{Storage: backing, Extra: extra, Tweak: func(cfg *fosite.Config) {
+	var tweakStrategy func(*compose.CommonStrategy, *fosite.Config)
+	if len(strategy) > 0 {
+		tweakStrategy = strategy[0]
+	}
+	w := world.New(world.Options{Storage: backing, Extra: extra, TweakStrategy: tweakStrategy, Tweak: func(cfg *fosite.Config) {
 		fs.Clients["c1"] = world.NewClient("c1", world.Secret1, cfg)
 		fs.Clients["c2"] = world.NewClient("c2", world.Secret2, cfg)
 		if tweak != nil {
@@ -256,6 +260,7 @@ type codeOpts struct {
 	pairs  bool
 	scopes []string
 	pkce   bool
+	oidc   bool // the grant is an OpenID Connect one (openid.DefaultSession, scope openid): the redeem also reads and deletes the OIDC session and mints an ID Token
 }
 
 const pkceVerifier = "zz-verifier-0123456789-0123456789-0123456789-abc"
@@ -328,8 +333,14 @@ func runCode(e *env, o codeOpts) {
 		verifier = pkceVerifier
 		extra = url.Values{"code_challenge": {s256(pkceVerifier)}, "code_challenge_method": {"S256"}}
 	}
-	code, _, err := e.w.AuthorizeCode("c1", o.scopes, extra)
-	zz.Assume(err == nil)
+	var code string
+	var err error
+	if o.oidc {
+		code, err = e.w.AuthorizeCodeSession("c1", o.scopes, nil, world.NewOIDCSession("peter"))
+	} else {
+		code, _, err = e.w.AuthorizeCode("c1", o.scopes, extra)
+	}
+	zz.Assume(err == nil && code != "")
 
 	pre := TakeSnap(e.fs.MemoryStore)
 	e.arm(o.pairs)
